@@ -87,8 +87,11 @@ def _inds_of(c):
 def _repair(s, dropped_constraints):
     """ForceApplyN lists must stay non-empty and refer to existing optional constraints"""
     ids = set(c["id"] for c in s.get("constraints", []))
+    tids = set(t["id"] for t in s.get("tasks", []))
     new = []
     for c in s.get("constraints", []):
+        if c["kind"] == "TaskPrecedence" and c.get("groups") and not all(c[k] in ids or c[k] in tids for k in ("before", "after")):
+            continue  # precedence between task groups: a group is gone
         if c["kind"] == "ForceApplyNOptionalConstraints":
             rest = [x for x in c["constraints"] if x in ids]
             if not rest:
